@@ -29,10 +29,11 @@ const (
 	opStart
 	opStop
 	opAbort
+	opPutNoType // Put while no data type is selected on the store: refused, and nothing may be left behind
 	c13NOps
 )
 
-var c13OpName = []string{"Put(k1)", "Put(k2)", "Get(k1)", "Get(k2)", "Get(never)", "GetLang(miss)", "GetLang(hit)", "Start", "Stop", "Abort"}
+var c13OpName = []string{"Put(k1)", "Put(k2)", "Get(k1)", "Get(k2)", "Get(never)", "GetLang(miss)", "GetLang(hit)", "Start", "Stop", "Abort", "Put(no type selected)"}
 
 type c13run struct {
 	sig, msg string
@@ -194,6 +195,10 @@ func execC13(seq []int, faults []int, keepLog bool) (res c13run, conn *pgfake.Co
 				nval++
 				val = []byte(fmt.Sprintf("v%d@%d", nval, i))
 				err = store.Put(ctx, []byte(kk), val)
+			case opPutNoType:
+				store.SetPrefix(db.DATATYPE_UNKNOWN)
+				err = store.Put(ctx, []byte("k1"), []byte("never stored"))
+				store.SetPrefix(db.DATATYPE_USERDATA)
 			case opGetK1:
 				key = k1
 				got, err = store.Get(ctx, []byte("k1"))
@@ -235,6 +240,13 @@ func execC13(seq []int, faults []int, keepLog bool) (res c13run, conn *pgfake.Co
 		}
 		// bookkeeping + expectations
 		switch op {
+		case opPutNoType:
+			// refused before anything is sent to the database: an error, and neither the client's transaction nor
+			// the store is touched (a transaction it began would show up as never ended, or in the next Start)
+			if err == nil {
+				fail("refused-put-accepted", op, fmt.Sprintf("step %d: Put with no data type selected returns nil", i))
+				return
+			}
 		case opPutK1, opPutK2:
 			if txOpen {
 				txTouched[key] = append(txTouched[key], val)
